@@ -12,6 +12,7 @@ import ThruVerif.Driver.HubCmd
 import ThruVerif.Driver.ServerCmd
 import ThruVerif.Driver.RouteCmd
 import ThruVerif.Driver.RaceCmd
+import ThruVerif.Driver.ResumeCmd
 import ThruVerif.Model.Budget
 /-!
 `tvdriver`: one case per input line, one result per output line. The same lines are given to the Go
@@ -42,6 +43,7 @@ def handle (line : String) : String :=
   | "hdr" :: ws => handleHdr ws
   | "enchdr" :: ws => handleEncHdr ws
   | "sf" :: ws => handleSf ws
+  | "plan" :: ws => handlePlan ws
   | "sched" :: ws => handleSched ws
   | "adm" :: ws => handleAdm ws
   | "recvfx" :: ws => handleRecvFx ws
